@@ -41,7 +41,10 @@ class Prop(RefProp):
         cases = []
         for _ in range(n):
             case = gen_pipes.gen_case(rng, self.profile)
-            if rng.random() < 0.05:
+            r = rng.random()
+            if r < 0.05:
                 gen_pipes.walrus_shadow(rng, case)
+            elif r < 0.10:
+                gen_pipes.per_iteration_decorators(rng, case)
             cases.append(case)
         return cases
